@@ -24,6 +24,21 @@ mod waits;
 fn main() {
     common::silence_panics();
     let args: Vec<String> = std::env::args().collect();
+    // A panic of the code under test that escapes the per-case guards (e.g. inside a drop, or in a
+    // helper thread that poisons a lock) must still come out as a line, not as a silent exit 101.
+    let guarded = common::quiet(|| collect(&args));
+    let lines = match guarded {
+        Ok(l) => l,
+        Err(p) => vec![format!(
+            "!harness {}\tFAIL the code under test panicked outside a guarded call: {p}",
+            args[1..].join(" ")
+        )],
+    };
+    emit(&args, lines);
+}
+
+fn collect(args: &[String]) -> Vec<String> {
+    let args: Vec<String> = args.to_vec();
     let lines = match args.get(1).map(|s| s.as_str()) {
         Some("ring") => ring::run(&args),
         Some("blocks") => blocks::run(&args),
@@ -68,7 +83,11 @@ fn main() {
             std::process::exit(2);
         }
     };
-    let only = common::arg(&args, "--only").and_then(|s| s.parse::<usize>().ok());
+    lines
+}
+
+fn emit(args: &[String], lines: Vec<String>) {
+    let only = common::arg(args, "--only").and_then(|s| s.parse::<usize>().ok());
     let stdout = std::io::stdout();
     let mut lock = stdout.lock();
     use std::io::Write;
